@@ -135,6 +135,11 @@ def make_meta(rng, box, version=None, via_cli=None, opts=None, single=None, tag=
     else:
         kind = {1: ["v1"], 2: ["a2", "v2"], 3: ["a3", "hy"]}[version]
         kind = rng.choice(kind)
-        raw = impl.create(kind, root, out, piece_length=pl, **opts)
+        if kind == "v1" and not single and rng.random() < 0.3:
+            # piece-aligned v1 (BEP 47 padding entries in the file list)
+            raw = impl.create(kind, root, out, piece_length=pl, align=True, **opts)
+            kind = "v1align"
+        else:
+            raw = impl.create(kind, root, out, piece_length=pl, **opts)
     return {"raw": raw, "path": out, "root": root, "name": name, "files": files, "pl": pl,
             "version": version, "single": single, "opts": opts, "creator": kind}
